@@ -1,0 +1,123 @@
+// SPDX-License-Identifier: Apache-2.0
+
+//! Verification hooks, compiled only with the `verif-hooks` cargo feature.
+//!
+//! `AtomicU8` is a transparent wrapper over the std type that reports every access to an
+//! optional, externally registered callback before performing it. Without a registered
+//! callback it behaves exactly like `std::sync::atomic::AtomicU8`.
+
+use std::sync::atomic::Ordering;
+use std::sync::OnceLock;
+
+/// Callback invoked before each atomic access (`"load"`, `"store"`, `"fetch_or"`, ...).
+pub type AtomicPointFn = dyn Fn(&'static str, usize) + Send + Sync;
+
+static ATOMIC_POINT: OnceLock<Box<AtomicPointFn>> = OnceLock::new();
+
+/// Register the process wide atomic-point callback (first registration wins).
+pub fn set_atomic_point(cb: Box<AtomicPointFn>) -> bool {
+    ATOMIC_POINT.set(cb).is_ok()
+}
+
+#[inline]
+fn atomic_point(op: &'static str, addr: usize) {
+    if let Some(cb) = ATOMIC_POINT.get() {
+        cb(op, addr);
+    }
+}
+
+/// Drop-in replacement for `std::sync::atomic::AtomicU8` used by the dirty-log bitmap.
+#[repr(transparent)]
+#[derive(Debug, Default)]
+pub struct AtomicU8(std::sync::atomic::AtomicU8);
+
+#[allow(missing_docs)]
+impl AtomicU8 {
+    pub const fn new(v: u8) -> Self {
+        AtomicU8(std::sync::atomic::AtomicU8::new(v))
+    }
+
+    #[inline]
+    pub fn load(&self, order: Ordering) -> u8 {
+        atomic_point("load", self as *const _ as usize);
+        self.0.load(order)
+    }
+
+    #[inline]
+    pub fn store(&self, val: u8, order: Ordering) {
+        atomic_point("store", self as *const _ as usize);
+        self.0.store(val, order)
+    }
+
+    #[inline]
+    pub fn swap(&self, val: u8, order: Ordering) -> u8 {
+        atomic_point("swap", self as *const _ as usize);
+        self.0.swap(val, order)
+    }
+
+    #[inline]
+    pub fn fetch_or(&self, val: u8, order: Ordering) -> u8 {
+        atomic_point("fetch_or", self as *const _ as usize);
+        self.0.fetch_or(val, order)
+    }
+
+    #[inline]
+    pub fn fetch_and(&self, val: u8, order: Ordering) -> u8 {
+        atomic_point("fetch_and", self as *const _ as usize);
+        self.0.fetch_and(val, order)
+    }
+
+    #[inline]
+    pub fn fetch_xor(&self, val: u8, order: Ordering) -> u8 {
+        atomic_point("fetch_xor", self as *const _ as usize);
+        self.0.fetch_xor(val, order)
+    }
+
+    #[inline]
+    pub fn fetch_add(&self, val: u8, order: Ordering) -> u8 {
+        atomic_point("fetch_add", self as *const _ as usize);
+        self.0.fetch_add(val, order)
+    }
+
+    #[inline]
+    pub fn compare_exchange(
+        &self,
+        current: u8,
+        new: u8,
+        success: Ordering,
+        failure: Ordering,
+    ) -> Result<u8, u8> {
+        atomic_point("compare_exchange", self as *const _ as usize);
+        self.0.compare_exchange(current, new, success, failure)
+    }
+
+    #[inline]
+    pub fn compare_exchange_weak(
+        &self,
+        current: u8,
+        new: u8,
+        success: Ordering,
+        failure: Ordering,
+    ) -> Result<u8, u8> {
+        atomic_point("compare_exchange_weak", self as *const _ as usize);
+        self.0.compare_exchange_weak(current, new, success, failure)
+    }
+
+    #[inline]
+    pub fn fetch_update<F: FnMut(u8) -> Option<u8>>(
+        &self,
+        set_order: Ordering,
+        fetch_order: Ordering,
+        mut f: F,
+    ) -> Result<u8, u8> {
+        // Same load / compare-exchange loop as std, with a point before each access.
+        let mut prev = self.load(fetch_order);
+        while let Some(next) = f(prev) {
+            match self.compare_exchange_weak(prev, next, set_order, fetch_order) {
+                x @ Ok(_) => return x,
+                Err(next_prev) => prev = next_prev,
+            }
+        }
+        Err(prev)
+    }
+}
